@@ -1173,6 +1173,9 @@ type c12Built struct {
 // c12RandScenario builds a read from pieces.  The read text is made HERE only by concatenating the pieces
 // in the documented order; the trace specification rebuilds it from the logged pieces (reverse
 // complement included) and compares.
+// c12ForceTiny: set by the recorder (single goroutine) for the scenarios that must be very short reads without site
+var c12ForceTiny bool
+
 func c12RandScenario(r *rand.Rand, sh *c12Sheet) c12Built {
 	sc := c12NoScenario()
 	sc.Has = 1
@@ -1182,6 +1185,10 @@ func c12RandScenario(r *rand.Rand, sh *c12Sheet) c12Built {
 	case x < 3:
 		namp = 2
 	case x == 3:
+		namp = 0
+	}
+	forceTiny := c12ForceTiny // the rare classes do not depend on the draw: the recorder asks for them
+	if forceTiny {
 		namp = 0
 	}
 	comp := map[byte]byte{'a': 't', 'c': 'g', 'g': 'c', 't': 'a'}
@@ -1333,7 +1340,7 @@ func c12RandScenario(r *rand.Rand, sh *c12Sheet) c12Built {
 	sc.Lf, sc.Mid, sc.Rf = c12Codes(lf), c12Codes(mid), c12Codes(rf)
 	if namp == 0 {
 		cls = append(cls, "nosite")
-		if text == "" || r.Intn(3) == 0 { // very short reads too, the empty one included
+		if text == "" || forceTiny || r.Intn(3) == 0 { // very short reads too, the empty one included
 			text = c12RandSeq(r, r.Intn(12))
 			sc.Lf, sc.Rf = c12Codes(text), []int{}
 			cls = append(cls, "tiny")
@@ -1383,7 +1390,9 @@ func c12Record(env *Env) {
 		}
 		seen := make([]c12Seen, 0, per)
 		for k := 0; k < per; k++ {
+			c12ForceTiny = k == 0 && si%8 == 2
 			b := c12RandScenario(r, sh)
+			c12ForceTiny = false
 			rcb := make([]byte, len(b.read))
 			for i := range b.read {
 				rcb[len(b.read)-1-i] = comp[b.read[i]]
